@@ -780,3 +780,120 @@ def render(spec) -> str:
     out.append(spec["extra_xml"])
   out.append("</mujoco>")
   return "\n".join(out)
+
+
+# --------------------------------------------------------------------------------------
+# contact scenes: free bodies with one geom each, chain placement at controlled separations
+
+
+def scene_strategy(types=("sphere", "capsule", "box"), nmax=5, **over):
+  d = dict(
+    n=st.integers(2, nmax),
+    types=types if isinstance(types, st.SearchStrategy) else st.just(list(types)),
+    plane=st.booleans(),
+    margin=st.sampled_from([False, False, True]),
+    params=st.booleans(),
+    pairs=st.integers(0, 1),
+    aligned=st.sampled_from([0.0, 0.3, 1.0]),
+    condim_menu=st.sampled_from([[3], [1, 3, 4, 6]]),
+    seed=st.integers(0, 2**31 - 1),
+    static=st.sampled_from([0.0, 0.3]),
+  )
+  for k, v in over.items():
+    d[k] = v if isinstance(v, st.SearchStrategy) else st.just(v)
+  return st.fixed_dictionaries(d)
+
+
+_AXQUATS = [[1, 0, 0, 0], [0.707107, 0.707107, 0, 0], [0.707107, 0, 0.707107, 0], [0.707107, 0, 0, 0.707107], [0.92388, 0, 0, 0.382683]]
+
+
+def _rbound(g):
+  t, s = g["type"], g.get("size", [0.1])
+  if t == "sphere":
+    return s[0]
+  if t == "capsule":
+    return s[0] + s[1]
+  if t == "cylinder":
+    return math.hypot(s[0], s[1])
+  if t in ("box", "ellipsoid"):
+    return math.sqrt(sum(x * x for x in s)) if t == "box" else max(s)
+  if t == "mesh":
+    return {"tetra": 0.2, "cube": 0.173, "octa": 0.15}[g["mesh"]]
+  return 0.1
+
+
+def make_scene(sc) -> dict:
+  """Explicit spec for a contact scene.  Bodies are free (or static); body pose = geom pose."""
+  r = R(sc["seed"])
+  cfg = dict(DEFAULT_CFG, geom_menu=sc["types"], margin=sc["margin"], geom_params=sc["params"], condim_menu=sc["condim_menu"], scale=0.0, unnorm=False, fluid=False)
+  bodies = []
+  prev = None
+  for i in range(sc["n"]):
+    g = _geom(r, cfg, f"g{i}")
+    g["pos"] = [0, 0, 0]
+    g["quat"] = [1, 0, 0, 0]
+    g.pop("density", None)
+    if sc["margin"] and g["type"] in ("box", "mesh") :
+      # put_model rejects margins on box/mesh multiccd pairs: keep those geoms margin-free
+      g.pop("margin", None)
+      g.pop("gap", None)
+    quat = r.ch(_AXQUATS) if r.p(sc["aligned"]) else r.quat()
+    rb = _rbound(g)
+    if prev is None:
+      pos = [0.0, 0.0, r.u(0.0, 0.3) + (rb if sc["plane"] else 0.0) * r.u(0.6, 1.3)]
+    else:
+      ppos, prb, pg = prev
+      direction = r.ch([[1, 0, 0], [0, 1, 0], [0, 0, 1], [-1, 0, 0]]) if r.p(sc["aligned"]) else r.unit()
+      cls = r.ch(["deep", "shallow", "touch", "near", "far"])
+      if g["type"] == "sphere" and pg["type"] == "sphere":
+        sep = dict(deep=-0.5 * min(rb, prb), shallow=-0.01, touch=0.0, near=0.01, far=0.2)[cls]
+        dist = rb + prb + sep
+      else:
+        f = dict(deep=r.u(0.3, 0.6), shallow=r.u(0.6, 0.8), touch=r.u(0.8, 0.95), near=r.u(0.95, 1.05), far=1.5)[cls]
+        dist = (rb + prb) * f
+      pos = r6([ppos[k] + direction[k] * dist for k in range(3)])
+    b = dict(name=f"b{i}", parent=-1, pos=pos, quat=quat, joints=[], geoms=[g], sites=[], cameras=[], lights=[])
+    if not r.p(sc["static"]) or i == 0:
+      b["joints"].append(dict(name=f"j{i}", type="free"))
+    bodies.append(b)
+    prev = (pos, rb, g)
+  spec = dict(bodies=bodies, world_geoms=[], tendons=[], equalities=[], actuators=[], sensors=[], pairs=[], excludes=[])
+  if sc["plane"]:
+    pg = dict(name=f"g{sc['n']}", type="plane", size=[0, 0, 0.1])
+    if sc["params"]:
+      pg["friction"] = [r.u(0.2, 1.5), r.lu(1e-3, 0.1), r.lu(1e-4, 0.01)]
+      if r.p(0.5):
+        pg["priority"] = r.i(0, 2)
+      if r.p(0.5):
+        pg["solmix"] = r.u(0.1, 3)
+      if r.p(0.5):
+        pg["solref"] = [r.u(0.005, 0.05), r.u(0.3, 1.5)]
+    cd = r.ch(sc["condim_menu"])
+    if cd != 3:
+      pg["condim"] = cd
+    if sc["margin"] and r.p(0.5):
+      pg["margin"] = r.u(0, 0.03)
+    spec["world_geoms"].append(pg)
+  names = [f"g{i}" for i in range(sc["n"] + (1 if sc["plane"] else 0))]
+  for k in range(sc["pairs"]):
+    i1, i2 = r.g.choice(len(names), size=2, replace=False)
+    p = dict(geom1=names[i1], geom2=names[i2])
+    if r.p(0.7):
+      p["condim"] = r.ch([1, 3, 4, 6])
+    if r.p(0.5):
+      p["friction"] = [r.u(0.2, 1.5), r.u(0.2, 1.5), r.lu(1e-3, 0.1), r.lu(1e-4, 0.01), r.lu(1e-4, 0.01)]
+    if r.p(0.5):
+      p["solref"] = [r.u(0.005, 0.05), r.u(0.3, 1.5)]
+    if r.p(0.3):
+      p["solreffriction"] = [r.u(0.005, 0.05), r.u(0.3, 1.5)]
+    t1 = next(b["geoms"][0]["type"] for b in bodies if b["geoms"][0]["name"] == names[i1]) if i1 < sc["n"] else "plane"
+    t2 = next(b["geoms"][0]["type"] for b in bodies if b["geoms"][0]["name"] == names[i2]) if i2 < sc["n"] else "plane"
+    if sc["margin"] and not (t1 in ("box", "mesh") and t2 in ("box", "mesh")) and r.p(0.5):
+      p["margin"] = r.u(0, 0.05)
+      p["gap"] = r.u(0, p["margin"])
+    spec["pairs"].append(p)
+  spec["meshes"] = sorted({b["geoms"][0]["mesh"] for b in bodies if b["geoms"][0].get("mesh")})
+  spec["option"] = dict(sc.get("option", {}))
+  spec["nkey"] = 0
+  spec["nuserdata"] = 0
+  return spec
